@@ -321,6 +321,16 @@ void BppODiscreteDistributionFormat::writeDiscreteDistribution(
     comma = true;
   }
 
+  if (dynamic_cast<const UniformDiscreteDistribution*>(&dist))
+  {
+    // The bounds are not parameters, but the reader requires them:
+    int p = out.getPrecision();
+    out.setPrecision(12);
+    (out << ",begin=").enableScientificNotation(false) << dist.getLowerBound();
+    (out << ",end=").enableScientificNotation(false) << dist.getUpperBound();
+    out.setPrecision(p);
+  }
+
   try
   {
     auto& pc = dynamic_cast<const ConstantDistribution&>(dist);
